@@ -92,11 +92,41 @@ def escVerdict (isBreak : Char → Bool) (q : Quote) (s escaped unescaped : Text
 
 /-! ### the word before the cursor (bare context) -/
 
-/-- the word `extract_word` must report for the text `l` before the cursor when a backslash
-    escapes: defined when the text is bare at its end, not cut after an escape, and plain -/
+/-- the word the completer must find for the text `l` before the cursor: defined when the text
+    is bare at its end, not cut after an escape, and plain -/
 def expectedWord (isBreak : Char → Bool) (l : Text) : Option (Nat × Text) :=
   let r := lex isBreak l
   if r.ctx = .none ∧ !r.dangling ∧ r.plain then
+    (splitAtByte l r.start).map (fun p => (r.start, p.2))
+  else none
+
+/-! ### the public helper `extract_word`
+
+  `extract_word` is a public, general-purpose function (third-party completers call it on ordinary
+  text); its documented contract knows word-break characters and the escape character only.  A
+  quote is an ordinary break character for it (`don't foo` has the word `foo`), so it is judged
+  against a reader that does not interpret quotes.  The quote-aware reading above (`lex`,
+  `expectedWord`) is what the property demands of the file name completer, and is judged there
+  (`fsVerdict`); the two readers differ exactly on lines like `'\'a` (finding D26, repaired in the
+  completer). -/
+
+def helperStep (isBreak : Char → Bool) (st : Lexed) (i : Nat) (c : Char) : Lexed :=
+  match st.mode with
+  | .bareEsc => { st with mode := .bare, path := st.path ++ [c], plain := st.plain && isBreak c }
+  | _ =>
+    if c = '\\' then { st with mode := .bareEsc }
+    else if isBreak c then { st with start := i + c.utf8Size, path := [] }
+    else { st with path := st.path ++ [c] }
+
+def helperGo (isBreak : Char → Bool) : Text → Nat → Lexed → Lexed
+  | [], _, st => st
+  | c :: t, i, st => helperGo isBreak t (i + c.utf8Size) (helperStep isBreak st i c)
+
+/-- the word the public `extract_word` must report for the text `l` before the cursor when a
+    backslash escapes: defined when the text is not cut after an escape and is plain -/
+def expectedWordHelper (isBreak : Char → Bool) (l : Text) : Option (Nat × Text) :=
+  let r := helperGo isBreak l 0 {}
+  if !r.dangling ∧ r.plain then
     (splitAtByte l r.start).map (fun p => (r.start, p.2))
   else none
 
